@@ -32,7 +32,9 @@ P = {
    note="CFGs with more blocks or several defers per block rely on the size-generic lemmas; the consumer in the intra-procedural analysis is outside."),
  "C17": dict(section="3 C17", text="Decides after each of 2 (thorough 3) symbolic insertions through addEdge / addParamEdgeByPos / addReturnEdgeByPos that an out-edge exists iff the in-edge exists and that the in-edge index is an out-edge index (strict per-index mirroring is known finding KF-C17-inedge-single-index), and that SyncGlobals registers exactly the read/write access nodes.",
    note="BuildGraph/Sync linking of call sites needs function names and is outside."),
- "C19": dict(section="3 C19", text="Decides findGoFunctions / findRecoverFunctions / findErroredFunctions exactly on every skeleton program of 2 (thorough 3) functions x 2 instruction slots over the static launch forms, and allowListed on a labelled path table.",
+ "C18": dict(section="7d C18", text="Decides the conservativeness kernel of the reachability tool on skeleton programs built from struct literals: findCallees reports every function an instruction refers to in each of 9 syntactic forms (callee or argument of call / go / defer, closure, store, return) - this found defect D10 - and the real FindReachable (with ssautil.AllFunctions on a hand-built ssa.Program) returns a set that contains the roots, is closed under the reference relation, contains only program functions and shrinks when main or init are excluded, on every 4-function program within the bound.",
+   note="The oracle is go/ssa's own operand relation. Interface-method closure over method sets, reflection, functions reached through values created outside the program, the comparison with the pointer-analysis call graph and the dependencies tool are outside; ground truth by execution is replaced by the static reference relation, which is what the tool's own design promises."),
+ "C19": dict(section="3 C19", text="Decides findGoFunctions / findRecoverFunctions / findErroredFunctions exactly on every skeleton program of 2 (thorough 3) functions x 2 instruction slots over the static launch forms, allowListed on a labelled path table, and the whole MayPanicAnalyzer (captured standard output) on a hand-built program whose launched function lives in a user package, in no package (generic instantiation / synthetic wrapper), in the standard library or in a look-alike package, with and without a recovering defer.",
    note="go iface.M() and go fv() (dynamic launch forms) need points-to facts and are outside the claim - this is where the implementation is known to be incomplete."),
  "C20": dict(section="3 C20", text="Decides over every rendezvous schedule of the interpreted goroutines/channels/WaitGroup that MapParallel returns f(a[i]) in input order, never deadlocks, never leaks a goroutine, never sends on a closed channel (len<=2, thorough 3; numRoutines in [-1,2], thorough 3), and - with happens-before (vector-clock) race detection over every schedule of lock/unlock operations - that two workers performing arbitrary operations on the shared GlobalNode read/write locations, the AnalyzerState error table and the alarm counter never make unsynchronised conflicting accesses.",
    note="The mapped function is assumed pure; races on other shared structures (flow graph insertion, report writers) and report-file completeness are outside; a race is printed as a VIOLATION only when go test -race confirms it natively."),
@@ -41,7 +43,6 @@ NA = {
  "C11": "pointer analysis vs run-time aliasing: constraint generation over typed whole-program SSA and the intsets/HVN solver cannot be encoded symbolically within reach (DESIGN §4)",
  "C12": "call-graph completeness depends on the same pointer constraint solver over whole typed programs; no encodable kernel carries the claim (DESIGN §4)",
  "C13": "composition of taint traversal, per-context escape graphs and locality over concurrent programs; no bounded kernel carries the claim (DESIGN §4)",
- "C18": "reachability traverses typed SSA and method sets of whole programs; ground truth is program execution (DESIGN §4)",
 }
 PENDING = json.load(open(os.path.join(ROOT, "tools", "pending.json"))) if os.path.exists(os.path.join(ROOT, "tools", "pending.json")) else {}
 checks = []
